@@ -162,8 +162,9 @@ def classify_e2e(c, model):
         out.append(dict(layer="property",
                         what="end to end: FetchMessage returned a sequence that is not a prefix of the stored records from the start position", input=c))
     elif "incomplete" in c["feats"].split(","):
-        out.append(dict(layer="property", what="end to end: every fetch was answered with the data at its offset, yet the Reader did not deliver all stored "
-                                               "records from its position (it keeps fetching the same offset)", input=c))
+        out.append(dict(layer="property", what="end to end: every fetch was answered with the data at its offset (or cut, then answered again), yet the Reader did not "
+                                               "deliver all stored records from the offset its position was first resolved to (it keeps fetching the same offset, or "
+                                               "resumed somewhere else)", input=c))
     if delivered != e2e_expected(c) or problems != "ok":
         kinds = sorted(set(p.split(" ")[0] for p in problems.split("+"))) if problems != "ok" else ["RETURNS"]
         if prop != "prop-ok":
@@ -244,7 +245,7 @@ def correspondence(ctx):
                      "the encoded response cut at every byte (<= 260 bytes) or 16 sampled positions, physically cut connections, passed deadlines, hwm = offset; "
                      "every byte-level result includes Batch.Close's result and whether the library closed the connection; for fetch v5/v10 a third of the layouts get a partition header with the last stable offset below the high watermark (half of them exactly at the fetch offset), a log start offset and an aborted-transactions list; C02_progress is judged on every in-spec case (the model delivers => the real code must); the io.Reader style family (op rd, 150 cases: Conn.Read and Batch.Read on single-record v2 batches and v0/v1 message sets, each buffer shorter than the next value with probability 1/2, retried with a larger one on the same Conn: values obtained = stored records from the position, offsets after io.ErrShortBuffer unchanged, results compared with the model's batch_reads / reads_close); " + SWEEP_RULE + "; "
                      "fetch v2/v5/v10; end to end: real kafka.Reader on harness/fetchfake with scripted cuts, NotLeaderForPartition, OffsetOutOfRange, "
-                     "RequestTimedOut, disconnects, leader moves, re-packed layouts, SetOffset, an open transaction (last stable offset at a batch base below the high watermark) in a third of the scenarios and the LSO family (36 scenarios: a fetch lands exactly on the last stable offset, fetch v2/v5/v10, the Reader must deliver every record); the SetOffset family (140 scenarios: start by default / SetOffset at a record / in a hole / FirstOffset, "
+                     "RequestTimedOut, disconnects, leader moves, re-packed layouts, SetOffset (absolute, FirstOffset, LastOffset) and SetOffsetAt, a partition that grows during the scenario (a quarter), the fetch still pending at the end journalled and compared, a 75-scenario slice of the C17 reader-resume family (reader_cut_cases), an open transaction (last stable offset at a batch base below the high watermark) in a third of the scenarios and the LSO family (36 scenarios: a fetch lands exactly on the last stable offset, fetch v2/v5/v10, the Reader must deliver every record); the SetOffset family (140 scenarios: start by default / SetOffset at a record / in a hole / FirstOffset, "
                      "exactly k = 0..3 reads by polling calls or with a first call that blocks until its message arrives (the call that starts the fetcher returns the first message), "
                      "then SetOffset to the same position, one past it, the last returned offset, one past that, or a hole, then reads); Reader.Offset() and Reader.Lag() "
                      "journalled after every call and compared with the model; every case is non-trivial (distinct by hash of op+args)",
@@ -267,11 +268,11 @@ def compressed_cut_cases(ctx):
 
 
 READER_CUT_RULE = ("C17 reader resume: real kafka.Reader (partition mode) on harness/fetchfake reads a whole log (10..30 records, uncompressed v2 / compressed v2 / "
-                   "v1 message sets incl. compressed wrappers, 1..4 records per batch, several batches per response, fetch v2/v5/v10, default start or SetOffset at a record); "
+                   "v1 message sets incl. compressed wrappers, 1..4 records per batch, several batches per response, fetch v2/v5/v10; start positions: default (FirstOffset placeholder), SetOffset(absolute), SetOffset(FirstOffset), SetOffset(LastOffset), SetOffsetAt(time); the partition grows AFTER the first connection resolved the placeholder (always for LastOffset, where the first response with the appended records is cut before its first complete record; half of the others)); "
                    "the ONLY fault: 1..3 fetch responses are delivered up to byte k and the connection is lost, k inside the size prefix, the response header, "
                    "the partition header, a batch header, between batches, between records, inside a record, inside a compressed batch, or after the last complete record "
                    "of a response that Kafka truncated inside a record; predicate on the real Reader's output: FetchMessage returns exactly the stored records from the "
-                   "start offset, each once, in order, all of them, within the watchdog; plus the replay of the journal on the model (delivered sequence, Reader.Offset()/Lag())")
+                   "offset the position was FIRST resolved to, each once, in order, all of them, within the watchdog; plus the replay of the journal on the model (delivered sequence, Reader.Offset()/Lag())")
 
 
 def reader_cut_cases(ctx):
